@@ -49,7 +49,7 @@ def to_xml(doc, comments=False):
         out.append("%s<section>" % ("  " * lvl))
         el("name", s["name"], lvl + 1)
         el("type", s["type"], lvl + 1)
-        for k in ("id", "definition", "reference"):
+        for k in ("id", "definition", "reference", "repository"):
             if s.get(k) is not None:
                 el(k, s[k], lvl + 1)
         for tag, text in s.get("unsupported", []):
@@ -61,7 +61,7 @@ def to_xml(doc, comments=False):
         for c in s["sections"]:
             sec(c, lvl + 1)
         out.append("%s</section>" % ("  " * lvl))
-    for k in ("author", "version", "date"):
+    for k in ("author", "version", "date", "repository"):
         if doc.get(k) is not None:
             el(k, doc[k], 1)
     for tag, text in doc.get("unsupported", []):
@@ -70,6 +70,21 @@ def to_xml(doc, comments=False):
         sec(s, 1)
     out.append("</odML>")
     return "\n".join(out) + "\n"
+
+
+def _native(v):
+    """The value as JSON / YAML would carry it when the author did not quote it: numbers and booleans natively typed."""
+    t, typ = v["text"], v.get("type")
+    try:
+        if typ == "int":
+            return int(t)
+        if typ == "float":
+            return float(t)
+        if typ == "boolean" and t.strip().lower() in ("true", "false"):
+            return t.strip().lower() == "true"
+    except (ValueError, TypeError):
+        pass
+    return t
 
 
 def to_dict(doc):
@@ -87,7 +102,7 @@ def to_dict(doc):
             d[tag] = text
         vals = []
         for v in p["values"]:
-            vd = {"value": v["text"]}
+            vd = {"value": _native(v) if p.get("native") else v["text"]}
             for k, x in v.items():
                 if k not in ("text", "_xmlcomment") and x is not None:
                     vd[p.get("type_tag", "type") if k == "type" else k] = x
@@ -97,7 +112,7 @@ def to_dict(doc):
 
     def sec(s):
         d = {"name": s["name"], "type": s["type"]}
-        for k in ("id", "definition", "reference"):
+        for k in ("id", "definition", "reference", "repository"):
             if s.get(k) is not None:
                 d[k] = s[k]
         for tag, text in s.get("unsupported", []):
@@ -106,7 +121,7 @@ def to_dict(doc):
         d["sections"] = [sec(c) for c in s["sections"]]
         return d
     dd = {}
-    for k in ("author", "version", "date"):
+    for k in ("author", "version", "date", "repository"):
         if doc.get(k) is not None:
             dd[k] = doc[k]
     for tag, text in doc.get("unsupported", []):
@@ -169,7 +184,7 @@ def expected(doc):
     import datetime as _dt
     date = _dt.date.fromisoformat(doc["date"]) if doc.get("date") else None
     m = {"k": "doc", "id": None, "author": doc.get("author"), "version": doc.get("version"), "date": date,
-         "repository": None, "sections": []}
+         "repository": doc.get("repository"), "sections": []}
     for tag, text in doc.get("unsupported", []):
         dropped.append(("doc-element", tag))
 
@@ -224,7 +239,7 @@ def expected(doc):
     def sec(s, path, name):
         here = path + "/" + name
         e = {"k": "sec", "id": valid_id(s["id"]) if s.get("id") else None, "name": name, "type": s["type"],
-             "definition": s.get("definition"), "reference": s.get("reference"), "repository": None, "link": None,
+             "definition": s.get("definition"), "reference": s.get("reference"), "repository": s.get("repository"), "link": None,
              "include": None, "sec_cardinality": None, "prop_cardinality": None, "properties": [], "sections": []}
         for tag, text in s.get("unsupported", []):
             dropped.append(("sec-element", tag))
